@@ -5,8 +5,8 @@ package main
 import (
 	"encoding/json"
 	"fmt"
-	"os"
 	"math/big"
+	"os"
 	"regexp"
 	"sort"
 	"strconv"
